@@ -32,13 +32,20 @@ fn read_payload_body(shape: usize) {
     let mut i = 0;
     while i < k { arrived[i] = if i < size { body[i] } else { extra[i - size] }; i += 1; }
     let rest_start = if k < size { k } else { size };
-    let mut stream = Script { data: &body[rest_start..size], pos: 0, chunk, reads: 0 };
+    // the stream holds the missing body bytes FOLLOWED by the first bytes of the next request: they must stay in the stream
+    let next: [u8; 2] = kani::any();
+    let mut wire = [0u8; 5];
+    let missing = size - rest_start;
+    let mut i = 0;
+    while i < missing { wire[i] = body[rest_start + i]; i += 1; }
+    wire[missing] = next[0]; wire[missing + 1] = next[1];
+    let mut stream = Script { data: &wire[..missing + 2], pos: 0, chunk, reads: 0 };
     let got = block_on(Request::read_payload(&mut stream, &arrived[..k], size));
     let got: &[u8] = &got;
     assert!(got.len() == size, "read_payload: exactly Content-Length bytes");
     let mut i = 0;
     while i < size { assert!(got[i] == body[i], "read_payload: the payload is the body bytes, however they were split between the first read and later reads"); i += 1; }
-    assert!(stream.pos == size - rest_start, "read_payload: consumes exactly the missing bytes from the stream");
+    assert!(stream.pos == missing, "read_payload: consumes exactly the missing bytes from the stream (no byte of the next request is attributed to this one)");
     if k >= size { assert!(stream.reads == 0, "read_payload: does not wait for input that has already arrived"); }
     kani::cover!(body[0] == 0);
 }
@@ -74,3 +81,22 @@ fn clear_body(shape: usize) {
     kani::cover!(true);
 }
 //@chunks 32 c05_clear_contract clear_body #[kani::proof] #[kani::unwind(50)] #[kani::stub(crate::util::unix_timestamp, stub_ts)]
+
+/// the buffer-filling request: the earlier request occupied the WHOLE 1 KiB buffer (no NUL byte anywhere); clear() must still reset everything
+#[kani::proof]
+#[kani::unwind(1030)]
+#[kani::stub(crate::util::unix_timestamp, stub_ts)]
+fn c05_clear_full_buffer_contract() {
+    let mut req = Request::init(std::net::IpAddr::V4(std::net::Ipv4Addr::new(127, 0, 0, 1)));
+    *req.__buf__ = [b'A'; BUF_SIZE];
+    req.headers.append(RequestHeader::Host, sym_slice(2));
+    req.headers.insert_custom(Slice::from_bytes(b"X-A"), sym_slice(2));
+    req.payload = Some(sym_slice(2));
+    req.context.set(7u8);
+    req.clear();
+    assert!(!req.headers.v_any_standard() && req.headers.v_standard_count() == 0, "clear (full buffer): no standard header of the earlier request is observable");
+    assert!(req.headers.v_custom_count() == 0, "clear (full buffer): no custom header of the earlier request is observable");
+    assert!(req.payload.is_none(), "clear (full buffer): no payload of the earlier request is observable");
+    assert!(req.context.get::<u8>().is_none(), "clear (full buffer): no context entry of the earlier request is observable");
+    assert!(req.__buf__[0] == 0, "clear (full buffer): buffer marked unused");
+}
